@@ -1,2 +1,4 @@
 import Gpv.Model.Basic
 import Gpv.Model.Accum
+import Gpv.Model.Running
+import Gpv.Props.C05
